@@ -259,6 +259,21 @@ fn run_board(prop: Prop, tier: Tier) -> i32 {
         fams.push(json!({"family": sf.name(), "index_space": sf.len(), "legal_members": n, "flipped_members": n2, "secs": t0.elapsed().as_secs_f64()}));
     }
 
+    // EDGE5 (wrap-around geometry), a co-prime sub-lattice
+    if matches!(prop, Prop::C01 | Prop::C02 | Prop::C03 | Prop::C05) {
+        let t0 = Instant::now();
+        let stride: u64 = match (tier, prop) {
+            (Tier::Quick, Prop::C01) | (Tier::Quick, Prop::C05) => 1_201,
+            (Tier::Quick, _) => 4_801,
+            (Tier::Thorough, _) => 37,
+        };
+        let fam = Edge5;
+        let sf = Strided(&fam, stride);
+        let n = for_family(&sf, &|p| visit(&ctx, p));
+        let n2 = for_family(&Flipped(&sf), &|p| visit(&ctx, p));
+        fams.push(json!({"family": sf.name(), "index_space": sf.len(), "legal_members": n, "flipped_members": n2, "secs": t0.elapsed().as_secs_f64()}));
+    }
+
     // CLOCKS
     if matches!(prop, Prop::C02 | Prop::C03 | Prop::C06 | Prop::C12) {
         let t0 = Instant::now();
